@@ -13,7 +13,7 @@ PROPERTIES["C19"] = dict(
     explanation="symx executes tokenhelper.Converse/Inverse from the SSA of /repo's working tree with a symbolic token and symbolic operands; "
                 "every switch arm is a solver-decided fork and every assertion is one (check-sat pc ∧ ¬A) query over all operand values.",
     bounds=dict(quick="K1: token in 0..127 (all go/token values); operands: all int64 pairs, all uint64 pairs, ASCII strings of length <= 6. "
-                      "K2: AddNilCheck on x OP nil, nil OP x, len(a) OP k, k OP len(a), len(a)-c / len(a)+c compared with 0 in both operand orders; all six operators; len(a) in [0,2^62], constants in [-2^62,2^62]",
+                      "K2: AddNilCheck on x OP nil, nil OP x, len(a) OP k, k OP len(a), len(a)-c / len(a)+c compared with 0 in both operand orders; all six operators; len(a) in [0,2^62], constants in [-2^62,2^62]. K2b: base / converse / inverse spellings of every type-correct comparison over nil, x, len(a), len(a)+-c, constants in [-3,3] and non-constant ints must attribute the same facts to corresponding branches",
                 thorough="same"),
     outside=["floating-point operands (NaN breaks inverse for ordered comparisons in Go itself; NilAway only rewrites nil/len/int comparisons)",
              "K2: the nested-len heuristics the source itself labels 'technically unsound' (len(a)-1+b compared with positive constants) are not asserted sound; only the matchers documented as sound are"],
@@ -23,7 +23,8 @@ PROPERTIES["C19"] = dict(
         dict(pkg="util/tokenhelper", files=["util_tokenhelper/zz_verif_c19.go"], entry="Harness_C19_K1_int", args=dict(sample_every=7)),
         dict(pkg="util/tokenhelper", files=["util_tokenhelper/zz_verif_c19.go"], entry="Harness_C19_K1_uint", args=dict(sample_every=7)),
         dict(pkg="util/tokenhelper", files=["util_tokenhelper/zz_verif_c19.go"], entry="Harness_C19_K1_string", args=dict(sample_every=7)),
-        dict(pkg="assertion/function/assertiontree", files=["assertiontree/zz_verif_c02.go", "assertiontree/zz_verif_c02stmt.go"], entry="Harness_C19_K2", native=False, args=dict(sample_every=17)),
+        dict(pkg="assertion/function/assertiontree", files=["assertiontree/zz_verif_c02.go", "assertiontree/zz_verif_c02stmt.go", "assertiontree/zz_verif_c19k2b.go"], entry="Harness_C19_K2", native=False, args=dict(sample_every=17)),
+        dict(pkg="assertion/function/assertiontree", files=["assertiontree/zz_verif_c02.go", "assertiontree/zz_verif_c02stmt.go", "assertiontree/zz_verif_c19k2b.go"], entry="Harness_C19_K2b", native=False, args=dict(sample_every=17)),
     ],
 )
 
@@ -47,7 +48,7 @@ PROPERTIES["C12"] = dict(
     ],
 )
 
-INFER_FILES = ["inference/zz_verif_c05.go", "inference/zz_verif_c05l2.go", "inference/zz_verif_c06.go", "inference/zz_verif_c04.go", "inference/zz_verif_c15.go", "inference/zz_verif_c08.go", "inference/zz_verif_registry.go",
+INFER_FILES = ["inference/zz_verif_c05.go", "inference/zz_verif_c05l2.go", "inference/zz_verif_c06.go", "inference/zz_verif_c04.go", "inference/zz_verif_c15.go", "inference/zz_verif_c15m.go", "inference/zz_verif_c08.go", "inference/zz_verif_registry.go",
                "annotation::annotation/zz_verif_export.go"]
 
 PROPERTIES["C05"] = dict(
@@ -214,10 +215,11 @@ PROPERTIES["C15"] = dict(
              quick=dict(params=dict(LOCMAX=3)), thorough=dict(params=dict(LOCMAX=11)), args=dict(sample_every=23)),
         dict(pkg="inference", files=INFER_FILES, entry="Harness_C15_VarKeys", args=dict(sample_every=2)),
         dict(pkg="inference", files=INFER_FILES, entry="Harness_C15_Stable", args=dict(sample_every=1)),
+        dict(pkg="inference", files=INFER_FILES, entry="Harness_C15_StableMethod", args=dict(sample_every=1)),
     ],
 )
 
-C02_FILES = ["assertiontree/zz_verif_c02.go", "assertiontree/zz_verif_c02stmt.go"]
+C02_FILES = ["assertiontree/zz_verif_c02.go", "assertiontree/zz_verif_c02stmt.go", "assertiontree/zz_verif_c19k2b.go"]
 C02_EXPL = ("symx executes preprocess.(*Preprocessor).CFG (copyGraph, canonicalizeConditional and the other passes), blocksAndPreprocessingFromCFG and AddNilCheck with its closures from SSA on a CFG whose "
             "entry block ends with a generated guard condition. The condition's shape is a choice; the nil-ness of x and y and the value of the opaque atom are symbolic Booleans, so every claim "
             "about a branch is decided for all valuations by the solver.")
@@ -255,7 +257,7 @@ def confirm_c17_templ(vs, outdir):
 PROPERTIES["C17"] = dict(
     explanation=C02_EXPL + " For C17 the harness renders everything reachable from the driver-shared inputs (CFG blocks, their Nodes/Succs backing arrays, the AST) canonically before and after the kernel "
                 "on every explored path and requires equality, plus no aliasing between the result and the input. The templ harness does the same for the function literal's CFG obtained through ctrlflow.",
-    bounds=dict(quick="guard conditions of depth <=2 (13 constructors) in a 3-block CFG; function bodies with a value switch (live, or dead after a return together with a range loop) whose CFG comes from the real cfg.New; templ component functions whose literal CFG has 1..3 blocks (live or dead) with 0..2 returns each, both package path spellings",
+    bounds=dict(quick="guard conditions of depth <=2 (13 constructors) in a 3-block CFG; function bodies with a value switch (live, or dead after a return together with a range loop) whose CFG comes from the real cfg.New; templ component functions whose literal CFG has 1..3 blocks (live or dead) with 0..2 returns each, both package path spellings; contract inference on the real SSA of all 775 depth-1 functions of the C20-K1 grammar (fn.Blocks unchanged)",
                 thorough="guard conditions of depth <=3"),
     outside=["every other consumer of shared input (assertion-tree construction, anonymousfunc, structfield, contract inference over shared SSA): whole-analysis code; a source scan found in-place writes to Nodes/Succs/Blocks only in preprocess",
              "type-switch marking (markTypeSwitchStatements) on non-empty bodies"],
@@ -267,6 +269,8 @@ PROPERTIES["C17"] = dict(
         dict(pkg="assertion/function/assertiontree", files=C02_FILES, entry="Harness_C02_Switch", native=False,
              quick=dict(params=dict(CLAUSES=3)), thorough=dict(params=dict(CLAUSES=3)), args=dict(sample_every=97)),
         dict(pkg="assertion/function/preprocess", files=["preprocess/zz_verif_c17.go"], entry="Harness_C17_Templ", native=False, confirm=confirm_c17_templ, args=dict(sample_every=97)),
+        dict(pkg="assertion/function/functioncontracts", files=["functioncontracts/zz_verif_c20.go"], entry="Harness_C20_K1", name="_shared_ssa",
+             quick=dict(params=dict(DEPTH=1)), thorough=dict(params=dict(DEPTH=2, CONDS=2, RESULTS=2)), args=dict(sample_every=37)),
     ],
     extra=[],
 )
@@ -338,13 +342,15 @@ PROPERTIES["C14"] = dict(
 )
 
 PROPERTIES["C20"] = dict(
-    explanation="K2 (call-site gating in the inference engine): symx executes Engine.ObservePackage / buildPkgInferenceMap / buildFromSingleFullTrigger / activateControlledTriggers from SSA on real FullTrigger "
+    explanation="K1 (the contract is true): the harness prints a one-parameter one-result pointer function from a depth-bounded grammar (if/else, early returns, conditional assignments to a local, "
+                "nil checks of x and y in both operand orders, opaque conditions); the REAL go/parser, go/types checker and go/ssa builder - executed from SSA by symx after running their package initialisers, nothing stubbed - "
+                "build the ssa.Function that the REAL inferContracts analyses; the function's semantics is one SMT term over 'x is nil' and the opaque conditions, and 'contract inferred => for all valuations with x non-nil "
+                "the result is non-nil' is one solver query per program. K2 (call-site gating in the inference engine): symx executes Engine.ObservePackage / buildPkgInferenceMap / buildFromSingleFullTrigger / activateControlledTriggers from SSA on real FullTrigger "
                 "values that include CONTROLLED triggers (the form in which an inferred nonnil->nonnil contract reaches the engine: 'the call-site result is nilable if the call-site argument is'), with annotations "
                 "replayed first, symbolic site identities and every arrival order; the oracle is the least fixpoint of 'nilable' in which a controlled constraint exists iff its controller site is nilable.",
-    bounds=dict(quick="<=3 triggers/annotations over 2x2 sites incl. controlled triggers (C05 L2 harness); the six-trigger `return nil, e2()` -> g(v) -> *g(v) scenario in all 720 orders, value result incorporated in either inference round",
-                thorough="<=4 triggers over 2x2 sites"),
-    outside=["K1, the derivation of the contract itself (functioncontracts.inferContracts over go/ssa): building or importing ssa.Function values inside the executor was not achieved (unexported instruction state); "
-             "the sentence 'whenever the analysis concludes nonnil->nonnil ... this is true of every execution' is therefore NOT decided by this check",
+    bounds=dict(quick="K1: all 775 functions of statement depth 1 over 7 condition forms, 5 result forms, 3 assignment forms; K2: <=3 triggers/annotations over 2x2 sites incl. controlled triggers (C05 L2 harness); the six-trigger `return nil, e2()` -> g(v) -> *g(v) scenario in all 720 orders, value result incorporated in either inference round",
+                thorough="K1: statement depth 2 over 3 condition forms and 3 result forms; K2: <=4 triggers over 2x2 sites"),
+    outside=["K1 beyond its grammar: loops, calls, field/array/map reads, several parameters, named results, defer/panic; functions deeper than the bound",
              "the call-site bookkeeping in the assertion tree (AddComputation: HasContract, getFuncReturnProducers, duplicateFullTrigger)", "cross-package contract facts"],
     assumptions=COMMON_ASSUMPTIONS + ["primitivizer.site/fullTrigger stubbed as in C05 L2 (validated natively)", "the consumer site of a controlled trigger is a call-site return site (duplicateFullTrigger)"],
     runs=[
@@ -353,5 +359,7 @@ PROPERTIES["C20"] = dict(
         dict(pkg="inference", files=INFER_FILES, entry="Harness_C08_Rounds", args=dict(sample_every=97)),
         dict(pkg="inference", files=INFER_FILES, entry="Harness_C04_K3", map_order=True,
              quick=dict(params=dict(TRIGGERS=3)), thorough=dict(params=dict(TRIGGERS=4)), args=dict(sample_every=1)),
+        dict(pkg="assertion/function/functioncontracts", files=["functioncontracts/zz_verif_c20.go"], entry="Harness_C20_K1",
+             quick=dict(params=dict(DEPTH=1)), thorough=dict(params=dict(DEPTH=2, CONDS=3, RESULTS=3)), args=dict(sample_every=37)),
     ],
 )
